@@ -182,6 +182,9 @@ CHECKS = {
         "The full statement derive_decode_reframed_statement (any valid tree with the documented value and unchunked strings) is kept with its machine-checked refutation by K8 "
         "(derive_decode_reframed_counterexample_K8, derive_decode_reframed_statement_false, derive_enum_indefinite_wrapper_rejected); reframed_examples: the K8 tree is not in "
         "`reframes`, the same tree with a definite wrapper is, and concrete trees with all heads widened and indefinite bodies are. "
+        "The relation is tied to the documented format in both directions: reframes_sound (every tree in the relation has value w = specTy t v and no chunked strings, so the "
+        "theorem is the statement plus ONE decidable hypothesis: derive_decode_reframed_partial2) and reframes_preferred (the preferred tree of specTy t v, whose bytes are the "
+        "derived encoding by C08, is in the relation for every schema and value; derive_roundtrip_from_reframed re-derives the round trip from the re-framing theorem). "
         "Error theorems: wrong tag -> tag mismatch (struct, enum); missing tag -> error; a declared mandatory field with an empty body -> missing_value (+ resolve_missing: any "
         "unresolved mandatory slot); unknown top-level variant -> unknown_variant at the position after the index. Borrowing: a decoded string / byte-string leaf is a contiguous "
         "slice of the input ending where the remaining input starts (borrowed_leaf_is_input_slice); whether the Rust value keeps the slice or a copy is observed by pointer range "
@@ -208,8 +211,10 @@ CHECKS = {
         "untouched), enum rows (row_compat: unknown variant -> unknown_variant error only in lenient position; reader unit variant skips the body; unit writer variant read by a "
         "variant with only optional fields), and skip() on unknown items discharged by C06.skip_exact because every derived encoding is a valid wire tree (spec_valid, skip_encTy). "
         "compat_decode_lenient: in the declared type of an optional field the result is the projection or an unknown-variant error. proj_ty/project_defined: the projection is "
-        "total on compatible versions (never `bad`; `unknown` only in lenient position), so the theorem is not vacuous. Both directions of every documented edit are instances of "
-        "`compatible` (compat_refl, step_compatible_field, step_compatible_variant). Kept: compat_decode_statement (no benign) with its machine-checked refutation by K5 "
+        "total on compatible versions (never `bad`; `unknown` only in lenient position), so the theorem is not vacuous. Both directions of EVERY documented edit are instances of "
+        "`compatible`: step_compatible (induction over the inductive relation CompatStep - rename / n<->b via compat_anon, add / drop optional field, add variant in optional "
+        "position, unit variant -> variant with only optional fields, and the congruences inside field types, Option and Vec), hence compat_decode_step: for every single documented "
+        "edit between accepted versions each side reads what the other wrote and obtains the projection. Kept: compat_decode_statement (no benign) with its machine-checked refutation by K5 "
         "(compat_counterexample_K5, compat_decode_statement_false), k5_benign_excludes, compat_F5_repaired, compat_not_transitive (a retired index re-used with another type), "
         "compat_missing_mandatory; the one-level theorems compat_decode_fields / compat_decode_struct_partial / compat_add_optional_field / compat_drop_field / "
         "compat_unknown_variant_*. Concrete two-version example with nesting, gap and new indices, map-encoded Vec elements, new variant in optional position and "
@@ -222,8 +227,8 @@ CHECKS = {
    note="The general theorem is proved for the whole schema universe of the derive model. Hypotheses beyond the property's wording, all decidable: benign (excludes exactly the "
         "known finding K5), noClash (Some(x) encoded as null, C09's documented exclusion), encoding shorter than 2^64 bytes (true of every Rust slice; skip() counts in u64). "
         "`compatible` is the relation that actually holds: the documented edits do not compose when a retired index is re-used with another type (compat_not_transitive), so the "
-        "correspondence generator never re-uses one. The inductive CompatStep (one constructor per documented edit) is related to `compatible` for add/drop field and add variant in "
-        "both directions; the remaining constructors (rename, unit->fields, congruences) are exercised by the correspondence and by compat_refl / examples. Front end outside the model as for C08."),
+        "correspondence generator never re-uses one; chains of edits are covered edit by edit (compat_decode_step) and, as pairs, whenever `compatible` holds (decidable). "
+        "Front end outside the model as for C08."),
  "C05": dict(
    text="Lean theorem int_accessor_exact: for every accessor type (u8..u64,i8..i64,Int), every sign, every head width and every argument that fits the width, "
         "the model accessor returns the mathematical value and stops right after the head iff the value is representable in the type, and an error otherwise "
